@@ -67,6 +67,11 @@ inductive Tree where
   /-- `import` / `from … import` binding `name` to an object defined elsewhere (one node per bound
       name; the visitor does not look at it, `Dynamic.execModule` does) -/
   | imp (name : Str) (next : Tree)
+  /-- module-level `target = src` where `src` is a plain name and `target` another one: a second name for whatever
+      `src` is bound to. `visit_Assign` only records the target in `self.assignments`; `calldefs` is untouched
+      (`Dynamic.execModule` binds the second key). Re-bindings of the SAME name (`f = wrapper(f)`, `f = f`) are
+      passed as `other`: with a wrapper that keeps `__module__`, `__name__`, `__doc__` they change nothing visible. -/
+  | alias (target src : Str) (next : Tree)
   /-- any other statement without statement-list fields -/
   | other (next : Tree)
   deriving Repr
@@ -221,6 +226,7 @@ def visit (loc : Locator) : Tree → St → St
     else visit loc next (visit loc orelse (visit loc body st))
   | .comp _ body next, st => visit loc next (visit loc body st)
   | .imp _ next, st => visit loc next st
+  | .alias _ _ next, st => visit loc next st
   | .other next, st => visit loc next st
 
 def docName : Str := "__doc__".toList
@@ -248,6 +254,7 @@ def locatedDocs : Tree → Bool → List Doc
       ++ locatedDocs next inCls
   | .comp _ body next, inCls => locatedDocs body inCls ++ locatedDocs next inCls
   | .imp _ next, inCls => locatedDocs next inCls
+  | .alias _ _ next, inCls => locatedDocs next inCls
   | .other next, inCls => locatedDocs next inCls
 
 /-- `parse_static_calldefs(source)` for the source lines `src`: an `IndexError` of the locator escapes -/
@@ -271,6 +278,7 @@ def methodsOf (loc : Locator) (cname : Str) : Tree → List CallDef
       ++ methodsOf loc cname next
   | .comp _ body next => methodsOf loc cname body ++ methodsOf loc cname next
   | .imp _ next => methodsOf loc cname next
+  | .alias _ _ next => methodsOf loc cname next
   | .other next => methodsOf loc cname next
 
 /-- module level: every function, every class followed by its methods -/
@@ -284,6 +292,7 @@ def topLevel (loc : Locator) : Tree → List CallDef
     (if isMainGuard test then topLevel loc orelse else topLevel loc body ++ topLevel loc orelse) ++ topLevel loc next
   | .comp _ body next => topLevel loc body ++ topLevel loc next
   | .imp _ next => topLevel loc next
+  | .alias _ _ next => topLevel loc next
   | .other next => topLevel loc next
 
 def inventory (loc : Locator) (m : Module) : List CallDef :=
@@ -306,6 +315,7 @@ def prune : Tree → Bool → Tree
     else .ifs test r1 r2 (prune body inCls) (prune orelse inCls) (prune next inCls)
   | .comp r body next, inCls => .comp r (prune body inCls) (prune next inCls)
   | .imp n next, inCls => .imp n (prune next inCls)
+  | .alias t s next, inCls => .alias t s (prune next inCls)
   | .other next, inCls => .other (prune next inCls)
 
 /-! ## `package_modpaths` over a finite directory tree -/
